@@ -132,8 +132,9 @@ def confirm(a: argparse.Namespace) -> int:
     tests_ok = True
     if a.tests:
         t = time.time()
+        par = f'-n {a.jobs} ' if a.jobs > 1 else ''
         cmd = (f'{PY} -m pytest -q -p no:cacheprovider -x --timeout=1200 '
-               f'-n 6 {a.tests}')
+               f'{par}{a.tests}')
         r = sh(isolated(cmd))
         last = (r.stdout.strip().splitlines() or ['?'])[-1]
         ran.append(f'pytest {a.tests} with patch: exit {r.returncode} '
@@ -223,6 +224,9 @@ def main() -> int:
     c.add_argument('--needs', required=True)
     c.add_argument('--summary')
     c.add_argument('--tests')
+    c.add_argument('--jobs', type=int, default=1,
+                   help='xdist workers; only for tests that start no '
+                        'Compiler (they would share port 7472)')
     r = sub.add_parser('run')
     r.add_argument('ids', nargs='*')
     r.add_argument('--update', action='store_true')
